@@ -125,6 +125,29 @@ def _result_arrays(r, depth=0):
     return []
 
 
+def observe(op: str, obj) -> None:
+    """put the arrays of obj (a result obtained without call(), e.g. an attribute of a raised exception) under observation"""
+    arrays = _result_arrays(obj)
+    if arrays:
+        _RECENT.append((op, arrays, [x.copy() for x in arrays], _CUR["case"]))
+        if len(_RECENT) > _RECENT_MAX:
+            _RECENT.pop(0)
+
+
+def check_observed(op: str) -> Optional[Fail]:
+    """the test that call() makes after every library call, for library calls made without call()"""
+    import numpy as _np
+
+    for prev_op, arrays, copies, prev_case in ([] if os.environ.get("VERIF_NO_RECENT_GUARD") else _RECENT):
+        for x, c in zip(arrays, copies):
+            if x.shape != c.shape or x.dtype != c.dtype or not _np.array_equal(x, c, equal_nan=(x.dtype.kind in "fc")):
+                _RECENT.clear()
+                if prev_case is not _CUR["case"] and prev_case is not None and _CUR["case"] is not None:
+                    _CUR["seq"] = {"__sequence__": [prev_case, _CUR["case"]]}
+                return Fail("MISMATCH", f"earlier-result-changed-by-later-call:{prev_op.split(':')[0]}->{op.split(':')[0]}", f"result of {prev_op} changed during {op}")
+    return None
+
+
 def call(op: str, f: Callable, *a, **k):
     """Call library code; returns (value, None) or (None, Fail). An earlier result of the same case that changed during this
     call is reported as a failure of this call."""
